@@ -54,13 +54,12 @@ Proof.
   cbn [accept_pdu items_of called_of calling_of].
   destruct items as [|first rest]; [discriminate|].
   destruct (last (first :: rest) (AppCtx 0 [])) as [| | |ur subs]; try discriminate.
-  destruct subs as [|s0 subs]; [discriminate|]. destruct s0 as [mr ml peer| | | | | | | |]; try discriminate.
   destruct (map_opt (answer_item cfg) (middle (first :: rest))) as [ans|] eqn:Ea; [|discriminate].
   destruct (map_opt proposal_of (middle (first :: rest))) as [props|] eqn:Ep; [|discriminate].
   intros H. injection H as <-. exists props. cbn [acc_pdu acc_table items_of called_of calling_of].
   split; [reflexivity|]. split.
-  - change ([first] ++ ans ++ [UserInfo ur (MaxLen mr ml (eff_limit own peer) :: subs)])
-      with (first :: ans ++ [UserInfo ur (MaxLen mr ml (eff_limit own peer) :: subs)]).
+  - change ([first] ++ ans ++ [UserInfo ur (announce (eff_limit own (peer_announced subs)) subs)])
+      with (first :: ans ++ [UserInfo ur (announce (eff_limit own (peer_announced subs)) subs)]).
     rewrite middle_wrap. exact (map_opt_answers cfg _ props ans Ep Ea).
   - repeat split; reflexivity.
 Qed.
